@@ -145,3 +145,35 @@ Example ex4_sound : check_sound ex4_flat = true. Proof. vm_compute. reflexivity.
 Example ex4_inj : check_inj ex4_flat = true. Proof. vm_compute. reflexivity. Qed.
 Example ex4_complete : check_complete ex4_flat = true. Proof. vm_compute. reflexivity. Qed.
 Example ex4_acount : check_accepted_count ex4_flat = true. Proof. vm_compute. reflexivity. Qed.
+
+(** A design of fragment F2 with an implied factor (outside [act_design]):
+    CrossBlock([f0, d1], [f0], [MinimumTrials(3)]) with d1 = "is f0 b / is f0 a" a within-trial derived factor
+    nobody uses.  RandomGen samples f0 only (3 trials of a round of 4: 6 words with each level at most twice);
+    the row of d1 is added afterwards ([cand_seq]). *)
+Open Scope string_scope.
+Definition ex5_flat : flat :=
+{| fl_design := [{| ff_name := "f0"; ff_hidden := false; ff_levels := [{| lv_name := "a"; lv_weight := 1; lv_accepts := [] |}; {| lv_name := "b"; lv_weight := 1; lv_accepts := [] |}]; ff_window := None; ff_complex := false |};
+      {| ff_name := "d1"; ff_hidden := false; ff_levels := [{| lv_name := "isb"; lv_weight := 1; lv_accepts := [[[Some 1]]] |}; {| lv_name := "isa"; lv_weight := 1; lv_accepts := [[[Some 0]]] |}]; ff_window := Some {| win_deps := [0]; win_width := 1; win_stride := 1; win_start := 0; win_start_delta := (0)%Z |}; ff_complex := false |}];
+   fl_act := [0]; fl_crossings := [[0]]; fl_sustains := [1]; fl_weights := [2]; fl_sizes := [2];
+   fl_preambles := [0]; fl_alignment := EqualPreamble; fl_alignment_preamble := 0; fl_min_trials := 3; fl_trials := 3;
+   fl_rcc := true; fl_exclude := []; fl_excluded_derived := [];
+   fl_constraints := [(FCross);
+      (FConsistency);
+      (FMinimumTrials (3)%Z)];
+   fl_errors_fail := false |}.
+Close Scope string_scope.
+
+Example ex5_frag2 : frag2 ex5_flat = true. Proof. vm_compute. reflexivity. Qed.
+Example ex5_frag1 : frag1 ex5_flat = false. Proof. vm_compute. reflexivity. Qed.
+Example ex5_enum : enumerates_b ex5_flat = true. Proof. vm_compute. reflexivity. Qed.
+Example ex5_nkeys : List.length (keys_of ex5_flat) = 6. Proof. vm_compute. reflexivity. Qed.
+Example ex5_nvalid : List.length (all_valid (code_sem ex5_flat)) = 6. Proof. vm_compute. reflexivity. Qed.
+Example ex5_sound : check_sound ex5_flat = true. Proof. vm_compute. reflexivity. Qed.
+Example ex5_inj : check_inj ex5_flat = true. Proof. vm_compute. reflexivity. Qed.
+Example ex5_complete : check_complete ex5_flat = true. Proof. vm_compute. reflexivity. Qed.
+(** a key (word a,b,a) and its whole sequence: f0 = a,b,a and d1 = isa,isb,isa *)
+Example ex5_decode :
+  option_map (cand_seq ex5_flat)
+    (decode_key ex5_flat {| k_pre := 0%Z; k_rounds := []; k_left := Some (4%Z, [0%Z; 0%Z; 0%Z], []) |})
+  = Some [[Some 0; Some 1; Some 0]; [Some 1; Some 0; Some 1]].
+Proof. vm_compute. reflexivity. Qed.
